@@ -415,7 +415,7 @@ func genSeqScript(seed uint64, profile string) []string {
 	if profile == "deferred" || profile == "deferredk1" {
 		exec = "deferred"
 		g.deferred = true
-		g.avoidK1 = profile == "deferred"
+		g.avoidK1 = false // K1 is repaired: no avoidance any more
 		g.dirty = map[int]bool{}
 	}
 	capS := ""
